@@ -66,6 +66,24 @@ class Rx:
             elif op is C.ATOMIC_GROUP:
                 yield from self.walk(av)
 
+    def optional_groups(self, sub=None, optional=False):
+        """Numbers of the capturing groups that need not take part in a match (inside `?` / `*` / `{0,n}` or one arm of `|`)."""
+        sub = self.parsed if sub is None else sub
+        out = set()
+        for op, av in sub:
+            if op in (C.MAX_REPEAT, C.MIN_REPEAT, C.POSSESSIVE_REPEAT):
+                out |= self.optional_groups(av[2], optional or av[0] == 0)
+            elif op is C.SUBPATTERN:
+                if av[0] is not None and optional:
+                    out.add(av[0])
+                out |= self.optional_groups(av[3], optional)
+            elif op is C.BRANCH:
+                for b in av[1]:
+                    out |= self.optional_groups(b, True)
+            elif op is C.ATOMIC_GROUP:
+                out |= self.optional_groups(av, optional)
+        return out
+
     def flat(self, sub=None):
         """Top-level sequence with capturing groups spliced in (no branches); a fixed repeat `X{n}` (n <= 8) is written out."""
         sub = self.parsed if sub is None else sub
